@@ -18,7 +18,13 @@ import (
 
 type MWSpec struct {
 	Rewrite bool `json:"rewrite"`
+	// Err: "soft" = on the way out of a successful call, marks it failed with Results.SetError(errSoft);
+	// "forgive" = on the way out, clears exactly that error again with SetError(nil). They are only
+	// generated as a pair (forgive wrapping soft), so together they change nothing.
+	Err string `json:"err,omitempty"`
 }
+
+var errSoft = fmt.Errorf("soft failure set by a middleware")
 
 type mwTrace struct {
 	mu     sync.Mutex
@@ -45,6 +51,12 @@ func genMWList(t *rapid.T, label string) []MWSpec {
 	for i := 0; i < n; i++ {
 		out = append(out, MWSpec{Rewrite: rapid.Bool().Draw(t, label+".rewrite")})
 	}
+	if rapid.IntRange(0, 3).Draw(t, label+".softpair") == 0 {
+		// later-listed wraps earlier: soft first, forgive after it
+		at := rapid.IntRange(0, len(out)).Draw(t, label+".softat")
+		pair := []MWSpec{{Err: "soft"}, {Err: "forgive"}}
+		out = append(out[:at], append(pair, out[at:]...)...)
+	}
 	return out
 }
 
@@ -58,6 +70,7 @@ func buildMW(specs []MWSpec, point string, trace *mwTrace, rewriteArgs ...bool) 
 	for i, s := range specs {
 		name := fmt.Sprintf("%s%d", point, i)
 		rewrite := s.Rewrite
+		errMode := s.Err
 		out = append(out, func(next frugal.InvocationHandler) frugal.InvocationHandler {
 			return func(service reflect.Value, method reflect.Method, args frugal.Arguments) frugal.Results {
 				// calls of the concurrent phase carry a request header "who"
@@ -84,6 +97,12 @@ func buildMW(specs []MWSpec, point string, trace *mwTrace, rewriteArgs ...bool) 
 				}
 				res := next(service, method, args)
 				trace.add("exit:" + name + tag)
+				switch {
+				case errMode == "soft" && len(res) > 0 && res.Error() == nil:
+					res.SetError(errSoft)
+				case errMode == "forgive" && len(res) > 0 && res.Error() == errSoft:
+					res.SetError(nil)
+				}
 				if len(res) == 2 {
 					trace.mu.Lock()
 					if trace.resultTypes == nil {
